@@ -6,7 +6,9 @@
  * worker that was killed by the code under test (library abort, sanitizer
  * report, signal, hang).
  */
+#ifndef _GNU_SOURCE
 #define _GNU_SOURCE
+#endif
 #include "vx_explore.h"
 
 #include <errno.h>
@@ -827,7 +829,7 @@ static int parse_choices(const char *s, uint8_t *out)
 {
     int n = 0;
     while (*s) {
-        while (*s == ',' || *s == ' ' || *s == '[' || *s == ']') {
+        while (*s == ',' || *s == ' ' || *s == '[' || *s == ']' || (*s == '-' && (s[1] < '0' || s[1] > '9'))) {
             s++;
         }
         if (!*s) {
